@@ -15,6 +15,7 @@ mod mon_c02;
 mod mon_c03;
 mod mon_c04;
 mod mon_c05;
+mod mon_c06;
 mod mon_c07;
 mod mon_c09;
 mod mon_c10;
@@ -40,6 +41,7 @@ fn main() {
         "c03" => mon_c03::run(&args),
         "c04" => mon_c04::run(&args),
         "c05" => mon_c05::run(&args),
+        "c06" => mon_c06::run(&args),
         "c07" => mon_c07::run(&args),
         "c09" => mon_c09::run(&args),
         "c10" => mon_c10::run(&args),
